@@ -105,7 +105,7 @@ def r3(chk):
                      strength="N")
     # Assorter.mean and set_tally_pool_means: identical style filter
     mean = chk.fn(REL, "Assorter.mean")
-    stp = chk.fn(REL, "Assorter.set_tally_pool_means")
+    stp = chk.fn(REL, "Assorter.set_tally_pool_means", canonical=True)
     want_f = spec.cond_term("(not use_style) or c.has_contest(self.contest.id)")
     filters = {}
     for fn, q in ((mean, "Assorter.mean"), (stp, "Assorter.set_tally_pool_means")):
@@ -150,6 +150,11 @@ def r3(chk):
         detail["accumulators"] = keys
         lv = norm(l.target)
         it = l.iter
+        if isinstance(it, ast.Name):
+            # the filtered list may be bound to a name first: pooled = [cvr for cvr in cvr_list if ...]; for c in pooled:
+            defs = [s for s in walk_local(stp) if isinstance(s, ast.Assign) and norm(s.targets[0]) == it.id]
+            if len(defs) == 1 and parent(defs[0]) is parent(l):
+                it = defs[0].value
         if isinstance(it, ast.ListComp):
             elt, tgt, src, ifs = aud.single_gen(it)
             tv = norm(tgt)
@@ -167,21 +172,30 @@ def r3(chk):
     chk.ob("C03.R3", W("Assorter.set_tally_pool_means"), "tot-and-n-over-same-cards", ok,
            "numerator (sum of assorter values) and denominator (count) accumulate in one loop over the cards that pass the "
            "style filter and are pooled, keyed by the card's own tally pool", node=acc[0] if acc else stp, strength="N", **detail)
-    # the stored mean is tot/n
+    # the stored mean is tot/n: the value stored per pool, if-converted over the loop body (conditional expression and if/else
+    # statement are the same term)
     ok = False
     dct = "tally_pool_dict"
     if acc and "n" in detail.get("accumulators", {}):
         dct = detail["accumulators"]["n"][0].split("[")[0]
-    for t, v, s in stores(stp):
-        if isinstance(t, ast.Subscript) and norm(t.value) == "self.tally_pool_means":
-            p = norm(t.slice)
-            if isinstance(v, ast.IfExp):
-                n0 = aud.cond_equiv(Tx().cond(v.test), spec.cond_term(f"{dct}[{p}]['n'] == 0"))[0]
-                div = norm(v.orelse) in (f'{dct}[{p}]["tot"]/{dct}[{p}]["n"]',
-                                         f"{dct}[{p}]['tot']/{dct}[{p}]['n']")
-                ok = n0 and div and norm(v.body) in ("np.nan", "numpy.nan", "math.nan")
-            elif isinstance(v, ast.BinOp) and isinstance(v.op, ast.Div):
-                ok = norm(v) in (f'{dct}[{p}]["tot"]/{dct}[{p}]["n"]',)
+    for l2 in loops:
+        sts = [(t, v, s) for t, v, s in stores(l2) if isinstance(t, ast.Subscript) and norm(t.value) == "self.tally_pool_means"]
+        if not sts:
+            continue
+        pv = norm(sts[0][0].slice)
+        if norm(l2.target) != pv:
+            continue
+        t3 = Tx()
+        try:
+            t3.block(list(l2.body))
+        except symx.Unsupported:
+            continue
+        got = t3.env.get(f"@self.tally_pool_means[{pv}]")
+        if got is None:
+            continue
+        wants = [Tx().expr(ast.parse(f"np.nan if {dct}[{pv}]['n'] == 0 else {dct}[{pv}]['tot'] / {dct}[{pv}]['n']", mode="eval").body),
+                 Tx().expr(ast.parse(f"{dct}[{pv}]['tot'] / {dct}[{pv}]['n']", mode="eval").body)]
+        ok = any(symx.equivalent(got, w)[0] for w in wants)
     chk.ob("C03.R3", W("Assorter.set_tally_pool_means"), "pool-mean=tot/n", ok,
            "the stored pool mean is tot/n of the same pool (nan only for an empty pool)", node=stp, strength="N")
 
